@@ -87,17 +87,61 @@ def const_pointer(ctx):
                    fn=f.label, inst=f.qname)
 
 
-READ_SIDE = ("lock_shared", "try_lock_shared", "try_lock_shared_for", "try_lock_shared_until", "read", "lock")
+READ_SIDE = ("lock_shared", "try_lock_shared", "try_lock_shared_for", "try_lock_shared_until", "read", "lock", "load")
+
+
+def _reader_acquisitions(ctx, f, depth=0, seen=None):
+    """acquisitions of this.m_mutex performed by f and by the members it calls on *this:
+    list of (mode, site, excused) - excused: an exclusive TRY acquisition made only after the deferred-write flag was
+    observed set (the reader then acts as the writer of the queued modifications, by design)"""
+    from ..engine import CALLS, is_lock_carrier, path
+    from ..typestate import NonNull
+    fb, eng = ctx.fb, ctx.eng
+    seen = seen if seen is not None else set()
+    if f.id in seen or depth > 4:
+        return []
+    seen.add(f.id)
+    out = []
+    la = eng.locks(f)
+    nn = None
+    for pos, _k, v, kind, st in la.acquire_events:
+        if v.mutex != "this.m_mutex":
+            continue
+        excused = False
+        if v.mode == "X" and kind is not True:
+            nn = nn or NonNull(f)
+            excused = ("nn", "this.m_pendingWrites") in nn.before.get(tuple(pos), set())
+        out.append((v.mode, f.loc(st), excused))
+    for st in f.stmts.values():
+        if st["k"] not in CALLS:
+            continue
+        g = fb.callee_fn(f, st)
+        if g is None or g.rec != f.rec or g.kind in ("ctor", "dtor"):
+            continue
+        obj = path(f, f.s(st["obj"])) if st.get("obj") else (path(f, f.s(st["args"][0])) if st["k"] == "CXXOperatorCallExpr" and st["args"] else None)
+        if obj not in ("this", "*this"):
+            continue
+        if is_lock_carrier(g.ret):
+            s = eng.handle_summary_of_call(f, st)
+            if s is None:
+                ctx.unknown("C02.share: cannot summarise the handle returned by %s (called at %s)" % (g.name, f.loc(st)))
+                continue
+            out += [(a["mode"], a["site"], False) for a in s if a["mutex"] in ("this.m_mutex", "*this.m_mutex") and a["st"] != "unowned"]
+            # what the callee does besides building the handle (e.g. draining deferred writes first)
+            out += [x for x in _reader_acquisitions(ctx, g, depth + 1, seen) if x[1] not in {a["site"] for a in s}]
+        else:
+            out += _reader_acquisitions(ctx, g, depth + 1, seen)
+    return out
 
 
 def share(ctx):
     """readers can share: on a shared-capable mutex every read-side operation named by the property
-    (lock_shared, try_lock_shared*, const lock(), read) acquires the object's mutex in SHARED mode"""
+    (lock_shared, try_lock_shared*, const lock(), read - and load(), which is built on lock_shared) acquires the
+    object's mutex in SHARED mode, in its own body and in every member it calls on the same object"""
     rid = "C02.share"
     ctx.rule(rid, "read-side operations acquire the object's own mutex in shared mode when M is shared-capable "
              "(a reader is never blocked merely by another reader)", floor=16)
     fb, eng = ctx.fb, ctx.eng
-    from ..engine import is_lock_carrier
     for cls in CLASSES:
         for f in fb.functions(rec=cls):
             if f.name not in READ_SIDE or not f.constm:
@@ -108,21 +152,13 @@ def share(ctx):
                     m = r.targs[1]
             if m not in SHARED_CAPABLE:
                 continue
-            modes = []
-            if is_lock_carrier(f.ret):
-                s = eng.handle_summary(f)
-                if s is None:
-                    ctx.unknown("%s: cannot summarise the handle returned by %s at %s" % (rid, f.name, f.where))
-                    continue
-                modes = [(a["mode"], a["site"]) for a in s if a["mutex"] == "this.m_mutex"]
-            else:
-                la = eng.locks(f)
-                modes = [(v.mode, f.loc(st)) for _p, _k, v, _kind, st in la.acquire_events
-                         if v.mutex == "this.m_mutex"]
+            modes = _reader_acquisitions(ctx, f)
             if not modes:
                 ctx.unknown("%s: no acquisition of m_mutex recognised in %s at %s" % (rid, f.name, f.where))
                 continue
-            ok = all(mo == "S" for mo, _ in modes)
-            ctx.ob(rid, ok, f.where, "%s on M=%s takes m_mutex in shared mode" % (f.name, m),
-                   "" if ok else ("exclusive acquisition at %s" % [s for mo, s in modes if mo != "S"][:2]
-                                  if modes else "no acquisition of m_mutex found"), fn=f.label, inst=f.qname)
+            bad = [(mo, site) for mo, site, exc in modes if mo != "S" and not exc]
+            ok = not bad
+            ctx.ob(rid, ok, f.where, "%s on M=%s takes m_mutex in shared mode only (exclusive only to run queued deferred "
+                   "writes after seeing the pending flag)" % (f.name, m),
+                   "" if ok else "exclusive acquisition at %s: this reader excludes / is blocked by other readers" % sorted({s_ for _m, s_ in bad})[:2],
+                   fn=f.label, inst=f.qname)
